@@ -165,9 +165,21 @@ func checkC04(ctx *Ctx) {
 		}
 		corrVers(ctx, "VERS.union/"+scheme, cases)
 	}
-	// cross-scheme sequences: the SAME constraint text evaluated under every scheme in turn, in
-	// rotating order, within this one process — a result must depend on the scheme named in the
-	// range only, never on which scheme saw that text before (call history, shared caches)
+	nCross := crossSchemeStream(ctx, "union-of-intervals/cross-scheme-sequence")
+	res.Distribution["cross_scheme_cases"] = nCross
+	res.DistinctNontrivial = len(distinct)
+	res.Distribution["constraints_per_range"] = shapes
+}
+
+// ---------- cross-scheme call sequences ----------
+
+// crossSchemeStream: the SAME constraint text evaluated under every scheme in turn, in rotating
+// order, within this one process — a result must depend on the scheme named in the range only,
+// never on which scheme saw that text before (call history, shared caches).  Used by C04 (the
+// result is the union of intervals), C16 (the result depends on the set of constraints only)
+// and C17 (each scheme is decided by its own ecosystem).
+func crossSchemeStream(ctx *Ctx, kind string) int {
+	res := ctx.Res
 	common := []string{"0.9.0", "1.0.0", "1.0.0-1", "1.0.0-alpha", "1.0.0-beta", "1.0.0-rc1", "1.5.0", "2.0.0", "2.0.0-1", "1.0", "1.0-1", "10.0.0", "1.0.0a1", "1.0.0.1"}
 	nCross := 0
 	for round := 0; round < 1; round++ {
@@ -182,7 +194,19 @@ func checkC04(ctx *Ctx) {
 						scheme := schemeNames[(k+round*4+i)%len(schemeNames)]
 						e := ecoByName(schemeEco[scheme])
 						pa, pb := e.Parse(a), e.Parse(b)
-						if !pa.OK || !pb.OK || !boundOK(scheme, a) || !boundOK(scheme, b) || cmpS(e, pa.Val, pb.Val) == 0 {
+						if !pa.OK || !pb.OK {
+							// a bound this scheme's ecosystem rejects: the call must report an error, whatever
+							// other schemes made of the same text before
+							pr := common[(i+j)%len(common)]
+							ok, isErr, pan := versContains("vers:"+scheme+"/"+text, pr)
+							res.Evaluations++
+							nCross++
+							if got := vresString(ok, isErr, pan); got != "e" {
+								res.violate(Violation{Eco: scheme, Kind: kind, Input: map[string]any{"range": "vers:" + scheme + "/" + text, "probe": pr, "note": "a bound is not a version of this scheme; same constraint text evaluated under other schemes earlier in this process"}, Expected: "e", Actual: got})
+							}
+							continue
+						}
+						if !boundOK(scheme, a) || !boundOK(scheme, b) || cmpS(e, pa.Val, pb.Val) == 0 {
 							continue
 						}
 						cs := []vcons{{shape[0], a, pa.Val}, {shape[1], b, pb.Val}}
@@ -207,7 +231,7 @@ func checkC04(ctx *Ctx) {
 								exp = "t"
 							}
 							if got := vresString(ok, isErr, pan); got != exp {
-								res.violate(Violation{Eco: scheme, Kind: "union-of-intervals/cross-scheme-sequence", Input: map[string]any{"range": "vers:" + scheme + "/" + text, "probe": pr, "note": "same constraint text evaluated under other schemes earlier in this process"}, Expected: exp, Actual: got})
+								res.violate(Violation{Eco: scheme, Kind: kind, Input: map[string]any{"range": "vers:" + scheme + "/" + text, "probe": pr, "note": "same constraint text evaluated under other schemes earlier in this process"}, Expected: exp, Actual: got})
 							}
 						}
 					}
@@ -215,9 +239,7 @@ func checkC04(ctx *Ctx) {
 			}
 		}
 	}
-	res.Distribution["cross_scheme_cases"] = nCross
-	res.DistinctNontrivial = len(distinct)
-	res.Distribution["constraints_per_range"] = shapes
+	return nCross
 }
 
 // ---------- C16 ----------
@@ -370,6 +392,7 @@ func checkC16(ctx *Ctx) {
 		}
 		corrVers(ctx, "VERS.variants/"+scheme, cases)
 	}
+	res.Distribution["cross_scheme_cases"] = crossSchemeStream(ctx, "result-depends-on-earlier-calls/cross-scheme-sequence")
 	res.DistinctNontrivial = len(distinct)
 	res.Distribution["variant_kinds"] = kinds
 }
@@ -530,6 +553,7 @@ func checkC17(ctx *Ctx) {
 		}
 		corrVers(ctx, "VERS.validate/"+scheme, cases)
 	}
+	res.Distribution["cross_scheme_cases"] = crossSchemeStream(ctx, "routing/cross-scheme-sequence")
 	res.DistinctNontrivial = len(distinct)
 	res.Distribution["malformation_classes"] = classes
 	res.Distribution["routing_cases_with_foreign_text"] = routing
